@@ -83,9 +83,9 @@ let table : (string * (sexp -> sexp)) list = [
   ("C09", run_C09);
   ("C15", run_C15);
   ("C16", run_C16);
-  ("C18", run_C18);
+  ("C18", run_C18T);
   ("C17", run_C17);
-  ("C19", run_C19);
+  ("C19", run_C19F);
   ("C11", run_C11);
   ("C13", run_C13);
   ("C14", run_C14 float_share);
